@@ -14,6 +14,7 @@ import (
 	"strings"
 	"sync"
 	"testing"
+	"time"
 
 	"github.com/transparency-dev/formats/log"
 	"github.com/transparency-dev/witness/internal/client"
@@ -379,4 +380,129 @@ func init() {
 	}
 	replayers["C18/pairs"] = pr
 	replayers["C18/big"] = pr
+}
+
+// --- several feed cycles of one long-running feeder ------------------------------------
+
+// CycleCase: a SumDB-style log grows through Sizes while one periodic feeder runs.
+type CycleCase struct {
+	Sizes []uint64 `json:"sizes"`
+}
+
+func runCycles(c *CycleCase) (bool, []string, error) {
+	hr := branchHashReader{sumBranch}
+	var mu sync.Mutex
+	cur := c.Sizes[0]
+	partial := false
+	rec := &recorder{}
+	rec.serve = func(p string) (int, []byte) {
+		mu.Lock()
+		size := cur
+		mu.Unlock()
+		if p == "/latest" {
+			return 200, sumdbLatest(size)
+		}
+		tile, err := tlog.ParseTilePath(strings.TrimPrefix(p, "/"))
+		if err != nil || tile.L < 0 {
+			return 404, []byte("bad tile path")
+		}
+		if uint64(tile.N*256+int64(tile.W))<<(uint(8*tile.L)) > size {
+			return 404, []byte("no such tile")
+		}
+		if tile.W < 256 {
+			mu.Lock()
+			partial = true
+			mu.Unlock()
+		}
+		data, err := tlog.ReadTileData(tile, hr)
+		if err != nil {
+			return 500, []byte(err.Error())
+		}
+		return 200, data
+	}
+	hc := &vlib.HistCase{Prop: "C18", Storage: "mem", Seed: "S", Logs: []vlib.LogSpec{{Origin: sumdbOrigin, KeyLabel: "sumdb", KeyName: "sum.example"}}, WKeys: vlib.LegacyWKeys}
+	e := vlib.NewEnv(hc)
+	w, _, closer, err := e.NewWitness()
+	if err != nil {
+		return false, nil, fmt.Errorf("harness: %v", err)
+	}
+	defer closer()
+	lc, err := config.NewLog(sumdbOrigin, sumKey.VKey(), "http://sumdb.example")
+	if err != nil {
+		return false, nil, fmt.Errorf("harness: %v", err)
+	}
+	ctx, cancel := context.WithCancel(context.Background())
+	done := make(chan error, 1)
+	go func() {
+		done <- sumdb.FeedLog(ctx, lc, realAdapter{w}, &http.Client{Transport: rec}, 15*time.Millisecond)
+	}()
+	defer func() {
+		cancel()
+		select {
+		case <-done:
+		case <-time.After(10 * time.Second):
+		}
+	}()
+	id := log.ID(sumdbOrigin)
+	for i, s := range c.Sizes {
+		mu.Lock()
+		cur = s
+		mu.Unlock()
+		want := sumBranch.Root(s)
+		deadline := time.Now().Add(20 * time.Second)
+		for {
+			if b, err := w.GetCheckpoint(id); err == nil {
+				h := e.ScanCheckpoint(b)
+				if h.ParseOK && h.Size == s && bytes.Equal(h.Root, want[:]) {
+					break
+				}
+			}
+			if time.Now().After(deadline) {
+				held := "nothing"
+				if b, err := w.GetCheckpoint(id); err == nil {
+					held = fmt.Sprintf("size %d", e.ScanCheckpoint(b).Size)
+				}
+				return true, []string{"cycles"}, fmt.Errorf("one periodic SumDB feeder, log grew through %v: 20s (>1000 feed cycles) after size %d (step %d) was published the witness holds %s: the feeder's proof for this size pair is not accepted", c.Sizes, s, i, held)
+			}
+			time.Sleep(5 * time.Millisecond)
+		}
+	}
+	return partial, []string{fmt.Sprintf("cycles:%d", len(c.Sizes))}, nil
+}
+
+func TestC18Cycles(t *testing.T) {
+	st := vlib.StatsFor("C18", "cycles", "ONE periodic sumdb.FeedLog (interval 15ms) follows a stub SumDB that grows through 3-7 drawn sizes (steps inside one tile, across tile boundaries, up to 2^17) into a real witness: state carried by the feeder across cycles must not spoil later proofs; non-trivial = a partial tile was needed")
+	rapid.Check(t, func(rt *rapid.T) {
+		n := rapid.IntRange(3, 7).Draw(rt, "n")
+		c := &CycleCase{}
+		var s uint64
+		for i := 0; i < n; i++ {
+			switch rapid.IntRange(0, 3).Draw(rt, "stepk") {
+			case 0, 1:
+				s += uint64(rapid.IntRange(1, 12).Draw(rt, "small"))
+			case 2:
+				s += uint64(rapid.IntRange(1, 600).Draw(rt, "mid"))
+			default:
+				s += uint64(rapid.IntRange(1, 70000).Draw(rt, "big"))
+			}
+			c.Sizes = append(c.Sizes, s)
+		}
+		nt, cl, err := runCycles(c)
+		st.Record(fmt.Sprint(c.Sizes), nt, cl, vlib.SampleOf(c))
+		if err != nil {
+			vlib.SaveFailure("C18", "cycles", c, err)
+			rt.Fatalf("C18 violated: %v", err)
+		}
+	})
+}
+
+func init() {
+	replayers["C18/cycles"] = func(raw json.RawMessage) error {
+		var c CycleCase
+		if err := json.Unmarshal(raw, &c); err != nil {
+			return err
+		}
+		_, _, err := runCycles(&c)
+		return err
+	}
 }
